@@ -289,6 +289,7 @@ def run(chk: common.Check):
         "TaskGraph/JobGraph cached_property critical_path_runtime and JobGraph._completion_time are reset by the harness before each read",
         "oracle clauses for longest path / critical path are evaluated for all-positive weights only (zero / negative weights: correspondence only)",
         "parallel edges (multigraphs) and falsy start labels are outside the property: correspondence only",
+        "a generator that yields more than 1000 nodes is not followed further (reported as Runaway on both sides): breadth_first(node) on a graph with a cycle reachable from the start never terminates in the real code",
     ]
 
 
